@@ -383,7 +383,7 @@ func (g *generator) field(scope string, depth int, minFrag int) *GSel {
 	if leafOnly {
 		kinds = []string{"v", "v", "v", "cr", "p", "z"}
 	} else {
-		kinds = []string{"n", "n", "n", "n", "i", "l", "v", "v", "cr", "cm", "cm", "crm", "p", "pn", "z", "k"}
+		kinds = []string{"n", "n", "n", "n", "i", "l", "v", "v", "cr", "cm", "cm", "crm", "p", "pn", "z", "k", "items", "items"}
 	}
 	name := hx.Pick(g.r, kinds)
 	s := &GSel{Kind: "field", Alias: g.alias(), Name: name, Dir: g.directive()}
@@ -411,7 +411,7 @@ func (g *generator) field(scope string, depth int, minFrag int) *GSel {
 		if g.r.Chance(1, 2) {
 			s.Args = append(s.Args, g.bigArg("c", g.multiplier()))
 		}
-	case "k":
+	case "k", "items":
 		n := g.r.Range(0, 50)
 		if g.r.Chance(1, 6) {
 			n = hx.Pick(g.r, []int{0, 1, 1<<31 - 1})
@@ -431,10 +431,39 @@ func (g *generator) field(scope string, depth int, minFrag int) *GSel {
 		}
 	}
 	hx.Shuffle(g.r, s.Args)
-	if k := kindOf(name); k.Ret != "" {
-		s.Subs = g.selSet(k.Ret, depth+1, map[string]bool{}, minFrag)
-	}
+	s.Subs = g.subsFor(name, depth, minFrag)
 	return s
+}
+
+// subsFor generates the sub-selections a field of this kind needs (nil for leaves).
+func (g *generator) subsFor(name string, depth int, minFrag int) []*GSel {
+	k := kindOf(name)
+	if k == nil || k.Ret == "" {
+		return nil
+	}
+	if k.Ret != "C" {
+		return g.selSet(k.Ret, depth+1, map[string]bool{}, minFrag)
+	}
+	// a connection: edges { node { <N selections> } [cursor] } [pageInfo { … }] [totalCount]
+	node := &GSel{Kind: "field", Name: "node", Subs: g.selSet("N", depth+3, map[string]bool{}, minFrag)}
+	edges := &GSel{Kind: "field", Name: "edges", Subs: []*GSel{node}}
+	if g.r.Bool() {
+		edges.Subs = append(edges.Subs, &GSel{Kind: "field", Name: "cursor"})
+	}
+	if g.r.Chance(1, 4) { // the same response key again: a second `node` with other sub-selections
+		edges.Subs = append(edges.Subs, &GSel{Kind: "field", Name: "node", Subs: g.selSet("N", depth+3, map[string]bool{}, minFrag)})
+	}
+	out := []*GSel{edges}
+	if g.r.Chance(1, 4) {
+		out = append(out, &GSel{Kind: "field", Name: "pageInfo", Subs: []*GSel{{Kind: "field", Name: hx.Pick(g.r, []string{"hasNextPage", "hasPreviousPage", "startCursor", "endCursor"})}}})
+	}
+	if g.r.Chance(1, 4) {
+		out = append(out, &GSel{Kind: "field", Name: "totalCount"})
+	}
+	if g.r.Chance(1, 5) {
+		out = append(out, &GSel{Kind: "field", Alias: g.alias(), Name: "edges", Subs: []*GSel{{Kind: "field", Name: "node", Subs: g.selSet("N", depth+3, map[string]bool{}, minFrag)}}})
+	}
+	return out
 }
 
 func overlaps(fragOn, scope string) bool {
@@ -517,9 +546,7 @@ func (g *generator) selSet(scope string, depth int, used map[string]bool, minFra
 			for n := g.r.Range(1, 2); n > 0; n-- {
 				g.budget--
 				dup := &GSel{Kind: "field", Alias: last.Alias, Name: last.Name, Args: append([]GArg{}, last.Args...), Dir: g.directive()}
-				if k := kindOf(last.Name); k != nil && k.Ret != "" {
-					dup.Subs = g.selSet(k.Ret, depth+1, map[string]bool{}, minFrag)
-				}
+				dup.Subs = g.subsFor(last.Name, depth, minFrag)
 				g.dups++
 				if g.r.Bool() || len(out) < 2 {
 					out = append(out, dup)
